@@ -8,7 +8,7 @@ from ..astutil import (call_name, calls_in, const_value, find_func, is_self_attr
                        replace_node)
 from ..domains import weak_orderings
 from ..frontend import AnalysisError, walk_function, walk_stmts
-from ..nf import to_nf, NFUnsupported, RF, Poly
+from ..nf import to_nf, NFUnsupported, RF, Poly, _subst_atom
 from ..report import norm_text
 from ..witness import witness, twin
 
@@ -180,7 +180,7 @@ def _coeff(p: Poly, sym, power):
 
 def _r3(ctx):
     prog = ctx.prog
-    ctx.rule("R-C12-3", floor=4, what="per-segment shift lies on the iso-damage line; R=-inf formula is its limit; one R<->mean relation")
+    ctx.rule("R-C12-3", floor=6, what="per-segment shift lies on the iso-damage line; R=-inf formula is its limit; one R<->mean relation")
     f = prog.functions.get(MS + ":_SegmentTransformer.transform_cycles_in_interval.transformed_amplitude")
     if f is None:
         raise AnalysisError("transformed_amplitude helper not found")
@@ -211,6 +211,18 @@ def _r3(ctx):
     else:
         ctx.violated(f, br.orelse[0], "transformed amplitude %r does not satisfy the iso-damage line S_a' + M S_m' = S_a + M S_m"
                      % G)
+    # fixed point: a cycle that already has the target ratio keeps its amplitude (=> idempotence within a segment)
+    at_goal = RF.sym("amp") * (RF.const(1) + Rg) / (RF.const(1) - Rg)
+    Gfix = _subst_atom(G, "mean", at_goal)
+    if Gfix == RF.sym("amp"):
+        ctx.holds(f, br.orelse[0], "a cycle already at R_goal is unchanged: G(amp, amp(1+R_goal)/(1-R_goal)) == amp")
+    else:
+        ctx.violated(f, br.orelse[0], "a cycle that already has the target stress ratio is changed to %r" % Gfix, text="fixed point")
+    Sfix = _subst_atom(S, "mean", -RF.sym("amp"))
+    if Sfix == RF.sym("amp"):
+        ctx.holds(f, br.body[0], "a cycle already at R = -inf (mean = -amplitude) is unchanged by the R_goal = -inf formula")
+    else:
+        ctx.violated(f, br.body[0], "a cycle at R = -inf is changed to %r by the R_goal = -inf formula" % Sfix, text="fixed point -inf")
     # limit R_goal -> -inf : ratio of the leading coefficients in Rg
     num1, den1 = _coeff(G.num, "Rg", Fraction(1)), _coeff(G.den, "Rg", Fraction(1))
     higher = any(dict(m).get("Rg", 0) not in (0, 1) for p in (G.num, G.den) for m in p.terms)
